@@ -9,10 +9,14 @@
      Qx  := polynomials in the formal parameter x with coefficients in Q,
      QxX := polynomials in the eigenvalue variable X with coefficients in Qx.
 
-   STATUS: these definitions are NOT proved equal to MathComp's [\det]/[char_poly]; what
-   the tie establishes inside Coq is therefore a TEST, on the implementation's outputs,
-   of (a) the premises of C04_charpoly_trunc and (b) its conclusion, both in this
-   executable reading (stdlib only, no MathComp). *)
+   STATUS: Spectrum/CharPolyExecCorrect.v proves, for the operations of ANY MathComp
+   comRingType in place of Q, that [det]/[charpoly] below compute MathComp's
+   [\det]/[char_poly] and that the premise checks [g_prem_unitary]/[g_prem_similar] imply
+   the premises of C04_charpoly_trunc.  What is NOT proved is that the instance [Qops]
+   (stdlib Q, operations followed by Qred, comparison Qeq_bool) is such a ring - only the
+   arithmetic of Q is trusted; the algorithm is the same Gallina term.  What the tie
+   establishes inside Coq is therefore a TEST, on the implementation's outputs, of (a) the
+   premises of C04_charpoly_trunc and (b) its conclusion (this file: stdlib only). *)
 
 Require Import List ZArith QArith Bool.
 Import ListNotations.
@@ -146,13 +150,7 @@ End CharPoly.
 Definition Qops : Ops Q :=
   MkOps 0%Q 1%Q (fun a b => Qred (a + b)) (fun a b => Qred (a * b)) Qopp Qeq_bool.
 
-Definition Qx := list Q.
-Definition QxOps : Ops Qx := poly_ops Qops.
-
-Definition trunc (N : nat) (p : Qx) : Qx := firstn (S N) p.
-
-Definition eqN_b (N : nat) (p q : Qx) : bool := peqb Qops (trunc N p) (trunc N q).
-
+(* ---- the checks, generic in the coefficient operations ---- *)
 Fixpoint forall2b {X : Type} (f : X -> X -> bool) (a b : list X) : bool :=
   match a, b with
   | [], [] => true
@@ -160,25 +158,50 @@ Fixpoint forall2b {X : Type} (f : X -> X -> bool) (a b : list X) : bool :=
   | _, _ => false
   end.
 
-Definition mx_eqN_b (N : nat) (M P : list (list Qx)) : bool :=
-  forall2b (forall2b (eqN_b N)) M P.
+Section Checks.
+Variables (A : Type) (K : Ops A).
+Let KP := poly_ops K.          (* polynomials in x: coefficient lists over A *)
+
+Definition g_trunc (N : nat) (p : list A) : list A := firstn (S N) p.
+
+Definition g_eqN_b (N : nat) (p q : list A) : bool := peqb K (g_trunc N p) (g_trunc N q).
+
+Definition g_mx_eqN_b (N : nat) (M P : list (list (list A))) : bool :=
+  forall2b (forall2b (g_eqN_b N)) M P.
 
 (* premises of C04_charpoly_trunc *)
-Definition prem_unitary (N n : nat) (U Ui : list (list Qx)) : bool :=
-  mx_eqN_b N (mmul QxOps Ui U) (ident QxOps n).
+Definition g_prem_unitary (N n : nat) (U Ui : list (list (list A))) : bool :=
+  g_mx_eqN_b N (mmul KP Ui U) (ident KP n).
 
-Definition prem_similar (N : nat) (U Ui H Ht : list (list Qx)) : bool :=
-  mx_eqN_b N (mmul QxOps (mmul QxOps Ui H) U) Ht.
+Definition g_prem_similar (N : nat) (U Ui H Ht : list (list (list A))) : bool :=
+  g_mx_eqN_b N (mmul KP (mmul KP Ui H) U) Ht.
 
 (* conclusion: all n+1 coefficients (polynomials in x) agree modulo x^(N+1) *)
-Fixpoint coefs_eqN_b (N : nat) (k : nat) (p q : list Qx) : bool :=
+Fixpoint g_coefs_eqN_b (N : nat) (k : nat) (p q : list (list A)) : bool :=
   match k with
   | O => true
-  | S k' => eqN_b N (hd [] p) (hd [] q) && coefs_eqN_b N k' (tl p) (tl q)
+  | S k' => g_eqN_b N (hd [] p) (hd [] q) && g_coefs_eqN_b N k' (tl p) (tl q)
   end.
 
-Definition concl_charpoly (N n : nat) (H Ht : list (list Qx)) : bool :=
-  coefs_eqN_b N (S n) (charpoly QxOps n Ht) (charpoly QxOps n H).
+Definition g_concl_charpoly (N n : nat) (H Ht : list (list (list A))) : bool :=
+  g_coefs_eqN_b N (S n) (charpoly KP n Ht) (charpoly KP n H).
+
+End Checks.
+
+(* ---- the instance used by the tie: rational coefficients ---- *)
+Definition Qx := list Q.
+Definition QxOps : Ops Qx := poly_ops Qops.
+
+Definition trunc : nat -> Qx -> Qx := g_trunc (A:=Q).
+Definition eqN_b : nat -> Qx -> Qx -> bool := g_eqN_b Qops.
+Definition mx_eqN_b : nat -> list (list Qx) -> list (list Qx) -> bool := g_mx_eqN_b Qops.
+Definition prem_unitary : nat -> nat -> list (list Qx) -> list (list Qx) -> bool :=
+  g_prem_unitary Qops.
+Definition prem_similar :
+  nat -> list (list Qx) -> list (list Qx) -> list (list Qx) -> list (list Qx) -> bool :=
+  g_prem_similar Qops.
+Definition concl_charpoly : nat -> nat -> list (list Qx) -> list (list Qx) -> bool :=
+  g_concl_charpoly Qops.
 
 (* ---- self-tests: the first-order Schrieffer-Wolff example of CharPolyEx.v ---- *)
 Local Open Scope Q_scope.
